@@ -18,7 +18,7 @@ for l in $(seq 1 $LANES); do
       d=/verif/seeded/$n
       [ -f $d/patch.diff ] || continue
       if ! git -C $wt apply --check $d/patch.diff 2>/dev/null; then echo "$n: PATCH DOES NOT APPLY" >> $tmp/out.$l; continue; fi
-      res=$(tools/wtrun.sh $wt $d/patch.diff $ALLIDS | sed -E 's/^\[(C[0-9]+) rc=([0-9]+) violations=([0-9]+)\].*/\1:\2/; s/^\[(C[0-9]+) build failed.*/\1:build/' | tr '\n' ' ')
+      res=$(tools/wtrun.sh $wt $d/patch.diff $ALLIDS | sed -E 's/^\[(C[0-9]+) rc=([0-9]+) violations=([0-9]+)[^]]*\].*/\1:\2/; s/^\[(C[0-9]+) build failed.*/\1:build/' | tr '\n' ' ')
       flag=""; echo "$res" | grep -q ":2\|build" && flag=" BROKEN"
       echo "$n$flag $res" >> $tmp/out.$l
     done
